@@ -129,11 +129,22 @@ impl Case {
             printer.attrs.push(at("printer-name", vec![Val::Str(T_NAME, b"stopped".to_vec())]));
             printer.attrs.push(at("printer-state-message", vec![Val::Str(r1::T_TEXT, b"media-jam".to_vec())]));
         }
+        // contexts 5 and 6: the response holds TWO printer-attributes groups; the first one carries only the reasons
+        // (5) or only the state (6), the other attribute sits in the second group
+        let mut second = Group { tag: r1::TAG_PRINTER, attrs: vec![] };
         if let Some(s) = state_value(self.state) {
-            printer.attrs.push(at("printer-state", vec![s]));
+            if self.context == 5 {
+                second.attrs.push(at("printer-state", vec![s]));
+            } else {
+                printer.attrs.push(at("printer-state", vec![s]));
+            }
         }
         if let Some(r) = self.reasons.values() {
-            printer.attrs.push(at("printer-state-reasons", r));
+            if self.context == 6 {
+                second.attrs.push(at("printer-state-reasons", r));
+            } else {
+                printer.attrs.push(at("printer-state-reasons", r));
+            }
         }
         if self.context == 2 {
             printer.attrs.push(at("queued-job-count", vec![Val::Int(5)]));
@@ -162,6 +173,10 @@ impl Case {
             });
         }
         m.groups.push(printer);
+        if self.context == 5 || self.context == 6 {
+            second.attrs.push(at("printer-name", vec![Val::Str(T_NAME, b"second".to_vec())]));
+            m.groups.push(second);
+        }
         if self.context == 4 {
             m.groups.push(Group {
                 tag: r1::TAG_UNSUPPORTED_GROUP,
@@ -227,6 +242,14 @@ fn expect(c: &Case) -> Expect {
         .as_ref()
         .map(|vs| vs.iter().any(|v| matches!(v, Val::Str(T_KEYWORD, w) if BLOCKING.iter().any(|b| b.as_bytes() == &w[..]))))
         .unwrap_or(false);
+    if c.context == 5 {
+        // only the reasons are in the first printer group: a blocking one must not be overlooked because some later
+        // group carries a state; everything else about split groups is left open
+        return if blocking { Expect::Ready(false) } else { Expect::OkAny };
+    }
+    if c.context == 6 {
+        return if stopped { Expect::Ready(false) } else { Expect::OkAny };
+    }
     if stopped || blocking {
         return Expect::Ready(false);
     }
@@ -327,7 +350,7 @@ pub fn run(ctx: &Ctx) -> ! {
     let mut rep = Report::new(
         ctx,
         "exploration",
-        "status x printer-state {absent, enum 3,4,5,6,0,-1, integer 5, keyword} x printer-state-reasons {absent, every ordered tuple of 1..n keywords over 10 blocking + 6 informational words, 5 non-keyword shapes} x shape {in memory, single keyword as 1-element set, wire bytes parsed} x context {printer group only, operation+job groups around, unrelated attributes, an unsupported-attributes group before the printer group with harmless decoys named printer-state / printer-state-reasons, job / unsupported groups around it with alarming decoys}; plus all 65 536 status codes through the gate; verdict per case from the readiness spec R5 (defined regions only). distinct = case; non-trivial = case inside a defined region",
+        "status x printer-state {absent, enum 3,4,5,6,0,-1, integer 5, keyword} x printer-state-reasons {absent, every ordered tuple of 1..n keywords over 10 blocking + 6 informational words, 5 non-keyword shapes} x shape {in memory, single keyword as 1-element set, wire bytes parsed} x context {printer group only, operation+job groups around, unrelated attributes, an unsupported-attributes group before the printer group with harmless decoys named printer-state / printer-state-reasons, job / unsupported groups around it with alarming decoys, two printer groups with the reasons only in the first and the state in the second, and the reverse}; plus all 65 536 status codes through the gate; verdict per case from the readiness spec R5 (defined regions only). distinct = case; non-trivial = case inside a defined region",
     );
     rep.assume("for status codes 0x0003-0x00ff (successful class, not defined by RFC 8011) either answer is accepted; cases outside the three defined regions accept any Ok(_)");
     if let Some(p) = &ctx.replay {
@@ -358,7 +381,7 @@ pub fn run(ctx: &Ctx) -> ! {
     for i in 0..N_ODD {
         reasons.push(Reasons::Odd(i));
     }
-    let radices = [statuses.len() as u64, STATES as u64, reasons.len() as u64, 3, 5];
+    let radices = [statuses.len() as u64, STATES as u64, reasons.len() as u64, 3, 7];
     let total = vmc::explore::product(&radices);
     for p in par_range(ctx.threads, total, 2048, Stats::new, |st, idx| {
         let t = vmc::explore::unrank(idx, &radices);
